@@ -242,4 +242,31 @@ def WFdoc (d : Doc Weight) : Bool :=
 def eraseDoc (d : Doc Weight) : Doc Rat :=
   { nSeats := d.nSeats, cands := d.cands, ballots := d.ballots.map (fun b => (b.1, b.2.val)), title := d.title }
 
+
+/-! ### lexical sanity of a text (hypothesis of `blt_parse_total_partial`) -/
+
+/-- the item is a number for Python: all digits accepted by `int()`, or a finite Decimal -/
+def Tok.isNum : Tok → Bool
+  | .nat _ | .dec _ => true
+  | _ => false
+
+/-- the end-of-ballots marker as `_parse_body` recognises it (`result == [0]`) -/
+def isTerm : List Tok → Bool
+  | [.nat n] => n = 0
+  | [.dec r] => r = 0
+  | _ => false
+
+/-- every line the body loop will read (up to and including the end marker) consists of numbers -/
+def bodyLexOK : List Line → Bool
+  | [] => true
+  | .blank :: rest => bodyLexOK rest
+  | .quoted _ :: _ => false
+  | .toks ts :: rest => ts.all Tok.isNum && (isTerm ts || bodyLexOK rest)
+
+/-- header items are not exotic digits, body lines are numbers -/
+def lexOK : List Line → Bool
+  | [] => true
+  | .toks ts :: rest => ts.all (· ≠ Tok.udigit) && bodyLexOK rest
+  | _ :: rest => bodyLexOK rest
+
 end VL.Blt
